@@ -327,7 +327,7 @@ def frame_ok(path, pkgname):
     """framing facts of a generated file: generated-code marker first, the !wireinject constraint before the package
     clause, the right package clause (a projection of the bytes; the judge decides what to require)"""
     try:
-        txt = open(path).read()
+        txt = open(path, errors='replace').read()
     except OSError:
         return False
     m = re.search(r'^package (\w+)$', txt, re.M)
